@@ -54,6 +54,9 @@ pub fn run(h: &H) {
             6 if (idx / 8) % 4 == 3 => {
                 h.guard(idx, "geodesic inverse on nearly antipodal pairs", || antipodal(h, idx, &mut rng));
             }
+            6 if (idx / 8) % 4 == 1 => {
+                h.guard(idx, "coverage of generated grids with oblong cells", || generated_coverage(h, idx, &mut rng));
+            }
             6 => {
                 let def = ONE_WAY[(idx as usize / 8) % ONE_WAY.len()];
                 h.guard(idx, def, || one_way(h, idx, def, &mut rng));
@@ -527,6 +530,76 @@ fn grid_op(h: &H, idx: u64, def: &str, kind: &str, touches: &[bool; 4], rng: &mu
         }
         if invertible && predicates(h, idx, &ctx, op, D::I, def, name, &p, touches, false).is_none() {
             return;
+        }
+    }
+}
+
+/// The coverage of a generated grid whose cells are as a rule not square, without a null grid:
+/// the half-cell margin is half a latitude step to the north and south and half a longitude step
+/// to the east and west.  A point further out than that on any side must come back as NaN and
+/// uncounted in both directions; a point well inside the margin must be counted forward; the
+/// count and the NaN must agree everywhere.
+fn generated_coverage(h: &H, idx: u64, rng: &mut Rng) {
+    use crate::gridgen::{GridCtx, GridSpec};
+    use std::sync::Arc;
+    let bands = 1 + rng.below(3);
+    let mut spec = GridSpec::random(rng, bands, false);
+    let ratio = *rng.pick(&[2.0, 0.5, 3.0, 1.0 / 3.0, 4.0, 0.25, 1.0]);
+    spec.dlon = spec.dlat * ratio;
+    spec.lon_e = spec.lon_w + spec.dlon * (spec.cols - 1) as f64;
+    // (the harness's own limit: the whole probed band clear of the date line and the poles)
+    if !(spec.lon_e + 2.0 * spec.dlon < 170.0 && spec.lon_w - 2.0 * spec.dlon > -170.0 && spec.lat_n + 2.0 * spec.dlat < 80.0 && spec.lat_s - 2.0 * spec.dlat > -80.0) {
+        return;
+    }
+    let text = spec.gravsoft(rng);
+    let Ok(g) = BaseGrid::gravsoft(text.as_bytes()) else { return };
+    let ext = ["geoid", "datum", "deformation"][bands - 1];
+    let mut ctx = GridCtx::new();
+    ctx.grids.insert(format!("g.{ext}"), Arc::new(g));
+    let (def, name, touches) = match bands {
+        1 => (format!("gridshift grids=g.{ext}"), "gridshift", [false, false, true, false]),
+        2 => (format!("gridshift grids=g.{ext}"), "gridshift", [true, true, false, false]),
+        _ => (format!("deformation grids=g.{ext} dt={}", rng.int(1, 20)), "deformation", [true, true, true, false]),
+    };
+    let Ok(op) = ctx.op(&def) else { return };
+    h.distinct(mix(hash_f64s(&[spec.lat_s, spec.lon_w, spec.dlat, spec.dlon]), idx));
+    let e = Ellipsoid::default();
+    let label = format!("{def} on lat {}..{} step {}, lon {}..{} step {}", spec.lat_s, spec.lat_n, spec.dlat, spec.lon_w, spec.lon_e, spec.dlon);
+    for _ in 0..16 {
+        // a position along one side, m cells outward of it
+        let side = rng.below(4);
+        let along = rng.range(0.05, 0.95);
+        let m = if rng.chance(0.5) { rng.range(0.55, 1.6) } else { rng.range(-0.4, 0.45) };
+        let (lon, lat) = match side {
+            0 => (spec.lon_w + along * (spec.lon_e - spec.lon_w), spec.lat_n + m * spec.dlat),
+            1 => (spec.lon_w + along * (spec.lon_e - spec.lon_w), spec.lat_s - m * spec.dlat),
+            2 => (spec.lon_e + m * spec.dlon, spec.lat_s + along * (spec.lat_n - spec.lat_s)),
+            _ => (spec.lon_w - m * spec.dlon, spec.lat_s + along * (spec.lat_n - spec.lat_s)),
+        };
+        let x = if bands == 3 {
+            let c = e.cartesian(&Coor4D([lon * D2R, lat * D2R, rng.range(0.0, 300.0), 0.0]));
+            [c[0], c[1], c[2], 2000.0]
+        } else {
+            [lon * D2R, lat * D2R, rng.range(0.0, 300.0), 2000.0]
+        };
+        let side_name = ["north", "south", "east", "west"][side];
+        let shape = if ratio > 1.0 { "wide-cells" } else if ratio < 1.0 { "tall-cells" } else { "square-cells" };
+        for d in [D::F, D::I] {
+            let Some((y, c)) = predicates(h, idx, &ctx, op, d, &def, name, &x, &touches, false) else { return };
+            let detail = || J::obj().set("operator", &label).set("direction", d.name()).set("side", side_name).set("cells_outside", m).set("input", J::bits(&x)).set("output", J::bits(&y)).set("count", c);
+            if m > 0.5 {
+                h.class(&format!("generated-grid/beyond-margin/{shape}/{side_name}"));
+                if c != 0 || !any_nan(&y) {
+                    v(h, idx, &format!("outside-coverage-not-flagged/generated-grid/{name}/{}/{side_name}/{shape}", d.name()), detail());
+                    return;
+                }
+            } else {
+                h.class(&format!("generated-grid/within-margin/{shape}/{side_name}"));
+                if d == D::F && c != 1 {
+                    v(h, idx, &format!("inside-margin-not-transformed/generated-grid/{name}/{side_name}/{shape}"), detail());
+                    return;
+                }
+            }
         }
     }
 }
